@@ -278,7 +278,7 @@ class BaseCube(object, metaclass=abc.ABCMeta):
         hdu_spectral = hdulist['SPECTRAL_INFO']
 
         cube.wav = u.Quantity(hdu_spectral.data['WAVELENGTH'],
-                              parse_unit_safe(hdu_spectral.columns[0].unit))
+                              parse_unit_safe(hdu_spectral.columns['WAVELENGTH'].unit))
 
         # Extract apertures
         try:
@@ -287,7 +287,7 @@ class BaseCube(object, metaclass=abc.ABCMeta):
             pass
         else:
             cube.apertures = u.Quantity(hdu_apertures.data['APERTURE'],
-                                        parse_unit_safe(hdu_apertures.columns[0].unit))
+                                        parse_unit_safe(hdu_apertures.columns['APERTURE'].unit))
 
         # Extract value
         hdu_val = hdulist['VALUES']
